@@ -36,14 +36,14 @@ Section Text.
      parsed back to the instance *)
   Theorem document_parses : forall n cl o e,
     wf_model u cl = true -> fits n cl o = true -> noq o = true -> exact_classes u n cl o = true -> nomaps_u u = true ->
-    e = eobj c u ign n None o ->
+    e = etop c u ign n o ->
     forall t' m k,
       wf_doc t' = true -> doc_says e (strip_indent t') = true ->
       Parser.parse_n k cfg c u (Some cl) (pump_doc m t' None) = Parser.Ok o [].
   Proof.
     intros n cl o e Hwf Hfit Hnq Hex Hnm -> t' m k Hwd Hs.
     apply (parse_reads cfg c u ok ign conv_law Hnodef false n k cl o _ (or_intror Hnm) Hwf Hfit).
-    apply (doc_reads _ (plain_obj c u ok ign n cl o None (wf_model_wfr u cl Hwf) Hfit Hnq Hex) [] m t' None Hwd eq_refl Hs).
+    apply (doc_reads _ (plain_obj c u ok ign n cl o None _ (wf_model_wfr u cl Hwf) Hfit Hnq Hex (nil_ok_top c u ok cl o n Hfit)) [] m t' None Hwd eq_refl Hs).
   Qed.
 
   (* XmlEventWriter *)
@@ -68,7 +68,7 @@ Section Text.
     intros t' m k Hwd Hst.
     apply (document_parses n cl o _ Hwf Hfit Hnq Hex Hnm eq_refl t' m k Hwd).
     unfold doc_says in *. rewrite Hst. apply says_strip; [|exact Hsays].
-    apply (plain_obj c u ok ign n cl o None Hw Hfit Hnq Hex).
+    apply (plain_obj c u ok ign n cl o None _ Hw Hfit Hnq Hex (nil_ok_top c u ok cl o n Hfit)).
   Qed.
 
   (* LxmlEventWriter *)
@@ -94,6 +94,6 @@ Section Text.
     intros t' m k Hwd Hst.
     apply (document_parses n cl o _ Hwf Hfit Hnq Hex Hnm eq_refl t' m k Hwd).
     unfold doc_says in *. rewrite Hst. apply says_strip; [|exact Hsays].
-    apply (plain_obj c u ok ign n cl o None Hw Hfit Hnq Hex).
+    apply (plain_obj c u ok ign n cl o None _ Hw Hfit Hnq Hex (nil_ok_top c u ok cl o n Hfit)).
   Qed.
 End Text.
